@@ -28,11 +28,17 @@ S3_FILE = _s3.__file__
 
 
 # -- cooperative fakes -----------------------------------------------------------------------------
+class TransientStorageError(ConnectionError):
+    """What the fake S3 client raises for an injected one-off failure of upload_part."""
+
+
 class FakeS3:
-    def __init__(self, s: sched.Sched):
+    def __init__(self, s: sched.Sched, fail_at=None):
         self.s = s
         self.calls = []
         self.n = 0
+        self.fail_at = fail_at  # index (in call order) of the upload_part call that fails once, or None
+        self.nparts_called = 0
 
     def create_multipart_upload(self, Bucket, Key, **kw):
         self.s.point("s3.create:begin")
@@ -44,6 +50,11 @@ class FakeS3:
 
     def upload_part(self, PartNumber, Body, Bucket, Key, UploadId):
         self.s.point("s3.upload_part")
+        k = self.nparts_called
+        self.nparts_called += 1
+        if k == self.fail_at:
+            self.calls.append(("part-failed", PartNumber, UploadId))
+            raise TransientStorageError(f"injected failure of upload_part call #{k}")
         self.calls.append(("part", PartNumber, UploadId))
         return {"ETag": f'"e{PartNumber}"'}
 
@@ -117,15 +128,23 @@ class Patch:
 SETUPS = ("local-shared", "cluster-shared", "cluster-copies",
           # history: an earlier attempt for the SAME object wrote a part (its upload id was published) and ended without
           # finalise; a new writer is created as a retry and its workers race for the first write
-          "local-shared-retry", "cluster-shared-retry", "cluster-copies-retry")
+          "local-shared-retry", "cluster-shared-retry", "cluster-copies-retry",
+          # environment deviation: the k-th upload_part call (in call order) fails once with a transient error and the
+          # worker repeats that write, as a task retry does; still one upload, every stored part under its id
+          "local-shared-fault0", "local-shared-fault1", "cluster-shared-fault0", "cluster-shared-fault1",
+          "cluster-copies-fault0", "cluster-copies-fault1")
 
 
 def make_system(setup: str, nthreads: int, with_finalise: bool):
     def make(prefix):
         s = sched.Sched(prefix, [S3_FILE], exclude_funcs=("__dask_tokenize__",))
-        s3 = FakeS3(s)
         retry = setup.endswith("-retry")
         base_setup = setup[: -len("-retry")] if retry else setup
+        fail_at = None
+        if "-fault" in setup:
+            base_setup, _, k_ = setup.partition("-fault")
+            fail_at = int(k_)
+        s3 = FakeS3(s, fail_at)
         client = None if base_setup == "local-shared" else FakeClient(s)
         p = Patch()
         p.set(_s3, "Lock", lambda: sched.FakeLock(s, "local"))
@@ -165,7 +184,10 @@ def make_system(setup: str, nthreads: int, with_finalise: bool):
                 def run():
                     while not pre["done"]:
                         s.block(ev0)
-                    rr = writers[k](k + 1, b"x" * 8)
+                    try:
+                        rr = writers[k](k + 1, b"x" * 8)
+                    except TransientStorageError:
+                        rr = writers[k](k + 1, b"x" * 8)  # the task is retried once
                     done["receipts"][k] = rr
                     done["n"] += 1
                     if done["n"] == nthreads:
@@ -351,7 +373,9 @@ NPART = 8
 def sched_cases(tier):
     # (setup, threads, with_finalise, preemption bound, part of the schedule tree)
     for setup in SETUPS:
-        if tier == "quick" and setup.endswith("-retry"):
+        if "-fault" in setup:
+            base = [(setup, 2, True, 1)] if tier == "quick" else [(setup, 2, True, 2), (setup, 3, True, 1)]
+        elif tier == "quick" and setup.endswith("-retry"):
             base = [(setup, 2, True, 1), (setup, 3, False, 1)]
         elif tier == "quick":
             base = [(setup, 2, False, 2), (setup, 2, True, 2), (setup, 3, False, 1)]
